@@ -14,6 +14,56 @@ BASE_OFF = ("cd /repo && /venv/bin/python -m pytest -ra -q -p no:cacheprovider -
 
 # id -> (level category, technique, level text, level note, design ref)
 CHECKS = {
+    'C01': ('exploration',
+            'offline trace checker (verdict vs recorded unimplemented/missing/blocked events) + executable reference model of generated form programs',
+            'Every solve of the workload runs under boundary wrappers; the oracle recomputes from the event log the set of lines that signalled '
+            'unimplemented, inputs still missing and demanded lines without a value, and compares with solve()\'s verdict and the three diagnostics; '
+            'for generated form programs (random, a named corpus, and a bounded-exhaustive family x all present/answered/refused assignments) the '
+            'verdict and diagnostic sets must equal a denotational reference interpreter. Held = on the executions listed in evidence.',
+            'Trusts the wrappers to see every read/store/not-implemented call and the reference interpreter as the intended semantics.',
+            'DESIGN.md section 4, C01'),
+    'C03': ('exploration',
+            'runtime re-evaluation monitor: every stored line re-run through its own definition on the final stores, under permuted schedules',
+            'After each traced solve (natural order and seeded permutations of the attempt order) every stored line is re-evaluated with the real '
+            'Field.value on accessors over the final input and value stores and must reproduce the stored value exactly; online, every read must '
+            'return the latest store and no key may change value.',
+            'Assumes line definitions are pure; schedule permutation is by replacing habutax.solver.sort_keys.',
+            'DESIGN.md section 4, C03'),
+    'C04': ('exploration',
+            'offline closure checker over READ_LINE events + reference demand closure of generated programs',
+            'For each traced solve the demanded closure is rebuilt from the references the evaluated lines actually made; a successful solution and '
+            'solver.forms must equal it exactly, a partial one must stay inside it; generated programs are also compared with the reference closure.',
+            'Trusts READ_LINE events inside attempts to be all references made.',
+            'DESIGN.md section 4, C04'),
+    'C05': ('exploration',
+            'schedule perturbation + metamorphic comparison of canonical outcomes across variants',
+            'Each case is solved under the natural order, K seeded permutations of the attempt order, permuted request order, permuted file layout, '
+            'all-in-file / all-at-prompt / split variants and line renamings; verdict, typed values, solution keys and diagnostic sets must coincide. '
+            'Evidence counts distinct attempt sequences actually produced.',
+            'With a refusing prompt only solved/not-solved is compared (the questions asked legitimately depend on order).',
+            'DESIGN.md section 4, C05'),
+    'C06': ('exploration',
+            'step-bound and conservation monitor on traced solves + history checker of the real DependencyTracker against a sequential model',
+            'Solves of cyclic, self-referential, unknown-name and refusing-prompt programs (refusal from every prompt index k) run under a logical work '
+            'ceiling; per-line evaluation bound, one prompt per input, and end-state conservation (no waiter left on a satisfied dependency) are checked. '
+            'The real DependencyTracker is driven by random histories (length <= 40) and bounded-exhaustive ones (quick: length <= 5, thorough: length <= 7) '
+            'of add_unmet/meet/partial and complete drains and compared step by step with a sequential model.',
+            'Termination is decided as a logical step bound; watchdog expiry is inconclusive. Per-line bound = multiplicity x (1 + distinct waits) + 1.',
+            'DESIGN.md section 4, C06'),
+    'C12': ('exploration',
+            'postcondition monitor on stored/read line values against a ten-line convention model; exhaustive awkward-value matrix',
+            'Generated lines return every awkward Python value (bool for int, int for money, subclasses, None, blank strings, -0.0, 1e22, ...) for every '
+            'line type and places in {0,2,5} (exhaustive matrix): the stored value must equal the convention model, or the solve must abort with a '
+            'TypeError naming the line; every STORE_LINE/READ_LINE of all other explored solves is checked for exact type and rounding.',
+            'Trusts hv/progen.convention as the specified convention.',
+            'DESIGN.md section 4, C12'),
+    'C13': ('exploration',
+            'online checker of prompt events against preceding missing-read events + three-run histories (solve, write back, solve, prune)',
+            'Each PROMPT must be preceded by a READ_INPUT(missing) of that input by the quoted lines, for an input not supplied and not asked before; '
+            'without refusal the asked set must equal the reference set of read-and-absent inputs; run 2 on the written-back inputs must ask nothing '
+            'and give the identical solution; run 3 with never-read inputs deleted must give the identical outcome.',
+            'Answers stay inside ConfigParser\'s safe alphabet (INI artefacts are C14\'s).',
+            'DESIGN.md section 4, C13'),
     'C07': ('exploration',
             'runtime postcondition monitor on figure_tax() against a statutory reference model; exhaustive whole-dollar sweep',
             'Every call of the real figure_tax() made by the workload is compared with a reference computed only from the '
